@@ -19,7 +19,7 @@ RULE = ('random files (1-3 dimensions, optional unlimited first dimension - seve
         'leading-underscore attribute) x four netCDF flavours x complevel 0/4: save() then pncopen(format=netcdf); '
         'the reopened file (dimensions, attributes with values, variable dtypes, dimension tuples, cells and masks) is '
         'compared with the Lean model of save+reopen and, independently, with the source file itself (oracle); '
-        'non-trivial = at least one masked variable with a masked cell and one unmasked variable')
+        'non-trivial = at least one masked variable with a masked cell and one unmasked variable; the flavour of the file on disk must be the requested one, also when the output path already holds a file (another flavour, empty); attribute names that are python attributes of netCDF4 objects (path, name, mask, scale, parent); kind big: an unmasked or masked variable of 8-17 MiB')
 ASSUMPTIONS = ['netCDF4-python/HDF5/zlib store and return values bit-exactly and auto-mask as modelled (readCell): observed on every run, not proved',
                'attribute names interpreted by netCDF4-python (valid_range, valid_min/max, scale_factor, add_offset) are outside the domain',
                'attribute values are opaque tokens in the model (identity); python ints are compared by value (NETCDF3 stores int32)']
